@@ -32,12 +32,12 @@ def c05_family(quick=True):
     T["arg.dynarray.int128.elem"] = _fn("x: DynArray[int128, 2]", "int128", "return x[0]")
     T["arg.dynarray.struct.mixed"] = _fn("x: DynArray[S, 2]", "DynArray[S, 2]", "return x", pre=S_MIX)
     T["arg.dynarray.struct.mixed.len"] = _fn("x: DynArray[S, 2]", "uint256", "return len(x)", pre=S_MIX)
-    if not quick and False:  # dynamic return data of external calls: the reference semantics is not validated for it yet (DESIGN.md 3/C05)
-        IFD = "interface I:\n    def bs(a: uint256) -> Bytes[5]: view\n    def tag(a: uint256, b: uint256) -> String[4]: view\n    def arr(a: uint256) -> DynArray[uint8, 2]: view\n    def setb(a: uint256) -> Bytes[5]: nonpayable\n\n"
-        T["extcall.ret.bytes"] = IFD + _fn("t: address, a: uint256", "Bytes[5]", "return staticcall I(t).bs(a)")
-        T["extcall.ret.string.two-args"] = IFD + _fn("t: address, a: uint256, b: uint256", "String[4]", "return staticcall I(t).tag(a, b)")
+    IFD = "interface I:\n    def bs(a: uint256) -> Bytes[5]: view\n    def tag(a: uint256, b: uint256) -> String[4]: view\n    def arr(a: uint256) -> DynArray[uint8, 2]: view\n    def setb(a: uint256) -> Bytes[5]: nonpayable\n\n"
+    T["extcall.ret.bytes"] = IFD + _fn("t: address, a: uint256", "Bytes[5]", "return staticcall I(t).bs(a)")
+    T["extcall.ret.string.two-args"] = IFD + _fn("t: address, a: uint256, b: uint256", "String[4]", "return staticcall I(t).tag(a, b)")
+    if not quick:
         T["extcall.ret.dynarray"] = IFD + _fn("t: address, a: uint256", "DynArray[uint8, 2]", "return staticcall I(t).arr(a)")
-        T["extcall.ret.bytes.default"] = IFD + _fn("t: address, a: uint256", "Bytes[5]", "return extcall I(t).setb(a, default_return_value=b\"dflt\")")
+    T["extcall.ret.bytes.default"] = IFD + _fn("t: address, a: uint256", "Bytes[5]", "return extcall I(t).setb(a, default_return_value=b\"dflt\")")
     T["arg.kw.bytes"] = "@external\ndef f(x: uint256, b: Bytes[4] = b\"ab\", y: uint256 = 7) -> uint256:\n    return x ^ (y << 8) ^ (len(b) << 16)\n"
     return T
 
